@@ -10,7 +10,7 @@
   __CPROVER_requires(IORA_TRUE && iora_exc == EXC_NONE) \
   __CPROVER_requires(__CPROVER_is_fresh(self, sizeof(*self))) \
   __CPROVER_requires(!self->_mutex.held && !self->_configMutex.held && self->_tasks.guard == &self->_mutex && self->_threads.guard == &self->_mutex) \
-  __CPROVER_requires(TP_INV(self) && TP_NOWRAP(self) && !G_acquired && !G_constructing && self->_maxQueueSize < ((size_t)1 << 30)) \
+  __CPROVER_requires(TP_INV(self) && TP_NOWRAP(self) && !G_acquired && !G_constructing && !G_lifecycle_owner && self->_maxQueueSize < ((size_t)1 << 30)) \
   __CPROVER_requires(ME.active == 0 && ME.busy == 0 && !ME.took && !ME.took_witness && ME.pops == 0 && ME.runs == 0 && ME.pushes == 0 && ME.spawns == 0)
 #define TP_ASSIGNS TP_SHARED_BY_ENV, self->_mutex.held, self->_configMutex.held, ME, LIN, LIN0, G_acquired, G_rel_hi
 #define TP_UNLOCKED (!self->_mutex.held && !self->_configMutex.held)
@@ -242,4 +242,31 @@ void h_phase4(void)
   IORA_CANARY("h_phase4: returns");
   if (JN.joined) { IORA_CANARY("h_phase4: joined one"); }
   if (JN.detached) { IORA_CANARY("h_phase4: detached one"); }
+}
+
+/* ------------------------------------------------------------------ start(): the Reset -> Running path (block target, from the `currentState == Created` test to the final return) */
+iora_lcresult ThreadPool_start_restart_contract(ThreadPool *self, LifecycleState currentState)
+__CPROVER_requires(IORA_TRUE && iora_exc == EXC_NONE)
+__CPROVER_requires(__CPROVER_is_fresh(self, sizeof(*self)))
+__CPROVER_requires(!self->_mutex.held && !self->_configMutex.held && self->_tasks.guard == &self->_mutex && self->_threads.guard == &self->_mutex)
+__CPROVER_requires(TP_INV(self) && TP_NOWRAP(self) && TP_NBOUND(self) && !G_acquired && !G_constructing && G_lifecycle_owner)
+__CPROVER_requires(ME.active == 0 && ME.busy == 0 && !ME.took && !ME.took_witness)
+__CPROVER_requires(ST.spawn_calls == 0 && ST.added == 0 && ST.live == 0 && ST.born_dead == 0)
+__CPROVER_requires(self->_initialSize < ((size_t)1 << 40) && self->_maxSize < ((size_t)1 << 40))      /* size bound: fewer than 2^40 initial workers */
+/* the states start() lets through to this point; in state Reset the pool is as stop() + reset() left it: shut down, not accepting */
+__CPROVER_requires(currentState == LifecycleState_Created || (currentState == LifecycleState_Reset && self->_shutdown && !self->_accepting && self->_lifecycleState == LifecycleState_Reset))
+__CPROVER_assigns(TP_ASSIGNS, ST)
+/* ST0 */ __CPROVER_ensures(TP_UNLOCKED && __CPROVER_return_value.success && __CPROVER_return_value.newState == LifecycleState_Running)
+/* ST2 restarted: the pool is open - _shutdown cleared (under the mutex, CV1), accepting, Running */ __CPROVER_ensures(currentState == LifecycleState_Reset ==> (!self->_shutdown && self->_accepting && self->_lifecycleState == LifecycleState_Running))
+/* ST3 restarted: one spawnWorker() per initial worker */ __CPROVER_ensures(currentState == LifecycleState_Reset ==> ST.spawn_calls == (self->_workerScaling ? self->_initialSize : self->_maxSize))
+/* ST4 restarted: every worker born by start() observed _shutdown == false at birth, so every map entry it added is a live worker */ __CPROVER_ensures(ST.born_dead == 0 && ST.live == ST.added)
+/* ST5 state Created (constructor already started the pool): nothing is done */ __CPROVER_ensures(currentState == LifecycleState_Created ==> (ST.spawn_calls == 0 && self->_shutdown == __CPROVER_old(self->_shutdown)))
+;
+void h_start_restart(void)
+{
+  ThreadPool *s; LifecycleState st;
+  iora_lcresult r = ThreadPool_start_restart(s, st);
+  IORA_CANARY("h_start_restart: returns");
+  if (st == LifecycleState_Reset) { IORA_CANARY("h_start_restart: restarted"); if (ST.live > 1) { IORA_CANARY("h_start_restart: several workers born"); } }
+  else { IORA_CANARY("h_start_restart: created"); }
 }
